@@ -85,7 +85,7 @@ func addrs(as []string) []string {
 
 func build(s *shape, kt string) *schema.Advertisement {
 	ad := &schema.Advertisement{
-		Provider:  ids.PeerT(s.Prov, kt).String(),
+		Provider:  idStr(s.Prov, kt),
 		Addresses: addrs(s.Addrs),
 		ContextID: ctxBytes(s.Ctx),
 		Metadata:  []byte("md-" + s.MD),
@@ -102,11 +102,23 @@ func build(s *shape, kt string) *schema.Advertisement {
 	if s.HasExt {
 		ep := &schema.ExtendedProvider{Override: s.Ov}
 		for _, e := range s.Eps {
-			ep.Providers = append(ep.Providers, schema.Provider{ID: ids.PeerT(e.ID, kt).String(), Addresses: addrs(e.Addrs), Metadata: []byte("md-" + e.MD)})
+			ep.Providers = append(ep.Providers, schema.Provider{ID: idStr(e.ID, kt), Addresses: addrs(e.Addrs), Metadata: []byte("md-" + e.MD)})
 		}
 		ad.ExtendedProvider = ep
 	}
 	return ad
+}
+
+// idStr: the string that stands for a name of the model where a provider is named -- a peer ID, or for the model's Texts a string
+// that is none (a host name, a peer ID cut short)
+func idStr(name, kt string) string {
+	switch name {
+	case "T1":
+		return "provider-one.example.net"
+	case "T2":
+		return ids.PeerT("P", kt).String()[:20]
+	}
+	return ids.PeerT(name, kt).String()
 }
 
 func ctxBytes(c string) []byte {
